@@ -406,7 +406,7 @@ package lisp
 //@ assume-range Runtime.evalDepth 0 4611686018427387904
 //@ assume-range CallFrame.HeightLogical 0 4611686018427387904
 
-//@ immutable LEnv.Runtime property C05 C09
+//@ immutable LEnv.Runtime property C05 C09 except lisp/x/debugger/dapserver.(*handler).onEvaluate
 //@ immutable Runtime.Stack property C05
 
 //@ pred BAL(env) = env.Runtime == old(env.Runtime) && env.Runtime.Stack == old(env.Runtime.Stack) && len(env.Runtime.Stack.Frames) == old(len(env.Runtime.Stack.Frames)) && env.Runtime.evalNesting == old(env.Runtime.evalNesting) && len(env.Runtime.conditionStack) == old(len(env.Runtime.conditionStack)) && env.Runtime.evalDepth == old(env.Runtime.evalDepth)
